@@ -14,6 +14,7 @@ import (
 	"encoding/base32"
 	"encoding/hex"
 	"fmt"
+	"github.com/ipld/go-ipld-prime/zzsimhook"
 	"io"
 	"os"
 	"path/filepath"
@@ -219,6 +220,11 @@ func (S) RunTape(t *sim.Tape, st *sim.Stats, keepLog bool) *sim.Outcome {
 		os.RemoveAll(root)
 	}()
 	w := &world{t: t, s: s, d: d, o: o, st: st, inflight: map[int]bool{}}
+	// function-entry yields inside the storage packages (build overlay): callers can be
+	// interleaved between the steps of computing a path, not only at file-system calls
+	zzsimhook.Yield = s.Yield
+	zzsimhook.YieldBlocked = s.YieldBlocked
+	defer func() { zzsimhook.Yield, zzsimhook.YieldBlocked = nil, nil }()
 
 	// ---- per-run configuration (swarm) ----
 	esc := t.Choice(3, "cfg.esc")
